@@ -1174,6 +1174,82 @@ func (g gen) delRange(keys []fkey) (int64, int64) {
 	return a, b
 }
 
+// denseDeletes: 1-3 full-key deletes (Delete, or DeleteRange over MinInt64..MaxInt64: the
+// indirectIndex.Delete merge walk) whose sorted key list has runs of 0-4 absent keys before each
+// stored key, before the first and after the last key of the file; after each, every stored key is
+// looked up on the open reader and again after reopen (the tombstone replay takes the same walk).
+func (g gen) denseDeletes(names []string) []jop {
+	stored := map[string]bool{}
+	for _, n := range names {
+		stored[n] = true
+	}
+	absentNear := func(k string) []string { // absent keys just before / after k
+		b := []byte(k)
+		var d string
+		if b[len(b)-1] > 0 {
+			b[len(b)-1]--
+			d = string(b)
+		} else {
+			d = k[:len(k)-1]
+		}
+		cands := []string{d, d + "0", d + "5", d + "~", k[:len(k)-1], k + "\x00", k + "0", k + "~"}
+		var out []string
+		for _, x := range cands {
+			if x != "" && !stored[x] {
+				out = append(out, x)
+			}
+		}
+		return out
+	}
+	probe := func() []jop {
+		var ops []jop
+		for _, n := range names {
+			ops = append(ops, jop{Op: "Contains", Key: n}, jop{Op: "ReadAll", Key: n})
+			if g.n(3) == 0 {
+				ops = append(ops, jop{Op: "Entries", Key: n}, jop{Op: "Type", Key: n})
+			}
+		}
+		ops = append(ops, jop{Op: "KeyCount"})
+		for i := range names {
+			ops = append(ops, jop{Op: "KeyAt", I: int64(i)})
+		}
+		return ops
+	}
+	var ops []jop
+	for m, nm := 0, 1+g.n(3); m < nm; m++ {
+		set := map[string]bool{}
+		for _, n := range names {
+			abs := absentNear(n)
+			g.w.Rng.Shuffle(len(abs), func(i, j int) { abs[i], abs[j] = abs[j], abs[i] })
+			for i, cnt := 0, g.n(5); i < cnt && i < len(abs); i++ {
+				set[abs[i]] = true
+			}
+			if g.n(3) != 0 {
+				set[n] = true
+			}
+		}
+		if len(set) == 0 {
+			set[names[0]] = true
+		}
+		ks := vh.SortedKeys(set)
+		if g.n(2) == 0 {
+			if g.n(3) == 0 { // Delete sorts its argument itself
+				g.w.Rng.Shuffle(len(ks), func(i, j int) { ks[i], ks[j] = ks[j], ks[i] })
+			}
+			ops = append(ops, jop{Op: "Delete", Keys: ks})
+		} else {
+			ops = append(ops, jop{Op: "DeleteRange", Keys: ks, Lo: math.MinInt64, Hi: math.MaxInt64})
+		}
+		ops = append(ops, probe()...)
+		if g.n(2) == 0 || m == nm-1 {
+			ops = append(ops, jop{Op: "Reopen"})
+			ops = append(ops, probe()...)
+		}
+	}
+	ops = append(ops, jop{Op: "TombFile"}, jop{Op: "HasTomb"})
+	return ops
+}
+
 func (g gen) idxCase(seekPast bool) jcase {
 	keys := g.fileKeys()
 	for seekPast { // keep the two finding shapes apart: no all-negative file in a seek-past-end case
@@ -1197,6 +1273,10 @@ func (g gen) idxCase(seekPast bool) jcase {
 	c.Ops = append(c.Ops, g.queries(keys, true, 6+g.n(8), seekPast)...)
 	if seekPast {
 		c.Ops = append(c.Ops, jop{Op: "Seek", Key: names[len(names)-1] + "0"}, jop{Op: "Seek", Key: "~~~"})
+		return c
+	}
+	if g.n(5) == 0 { // full-key deletes whose key lists mix stored keys with dense runs of absent keys
+		c.Ops = append(c.Ops, g.denseDeletes(names)...)
 		return c
 	}
 	if g.n(4) == 0 { // cover one key piecewise: the coalescing window and its gaps
@@ -1401,7 +1481,7 @@ func (g gen) crashCase() jcase {
 
 func main() {
 	w := vh.New("C08", "From Verif Require Import Base.Prelude Base.C08_BE Model.C08_File Model.C08_Index Model.C08.", "case", "check")
-	w.Rule = "kinds: file (1-4 keys x 1-3 real encoded blocks through WriteBlock/Write; some with unknown block type, out-of-order key, empty blocks, nothing written, blocks out of time order), idx (1-6 keys x 1-5 blocks x 1-3 points from a pool of keys with ',', '=', ' ', backslash escapes, control bytes, prefixes of each other and a ~300-byte key; times small, sometimes all negative or with MinInt64/MaxInt64; 6-13 lookups on present/absent/neighbour keys and times, then 0-4 DeleteRange/Delete batches (sorted key batches with duplicates and absent keys; full-range, whole-key, half-open, inverted and adjacent ranges) each followed by boundary probes, lookups and sometimes reopen), tomb (1-3 Tombstoner commits), crash (5 crash points x durable/non-durable rename x 14+ truncation points of the .tmp, with and without *.tmp cleanup; a second goroutine polls the .tombstone file during the commit: it must never be absent and always hold the old or new set), renamefail (the .tombstone.tmp is moved away in the FileFinishing callback so the rename fails: the set on disk, in an image taken right there and after *.tmp cleanup, must be exactly the old set), limit (key length and block count around 65535). Non-trivial: file with >= 2 accepted calls, idx with >= 1 delete, tomb with >= 2 members, every crash and limit case. Distinct: distinct Gallina terms."
+	w.Rule = "kinds: file (1-4 keys x 1-3 real encoded blocks through WriteBlock/Write; some with unknown block type, out-of-order key, empty blocks, nothing written, blocks out of time order), idx (1-6 keys x 1-5 blocks x 1-3 points from a pool of keys with ',', '=', ' ', backslash escapes, control bytes, prefixes of each other and a ~300-byte key; times small, sometimes all negative or with MinInt64/MaxInt64; 6-13 lookups on present/absent/neighbour keys and times, then 0-4 DeleteRange/Delete batches (sorted key batches with duplicates and absent keys; full-range, whole-key, half-open, inverted and adjacent ranges) each followed by boundary probes, lookups and sometimes reopen; one case in five instead issues 1-3 full-key deletes (Delete / DeleteRange over the whole int64 range) whose sorted key lists put runs of 0-4 absent keys before every stored key, before the first and after the last key, with Contains/ReadAll/KeyAt of every stored key on the open reader and after reopen), tomb (1-3 Tombstoner commits), crash (5 crash points x durable/non-durable rename x 14+ truncation points of the .tmp, with and without *.tmp cleanup; a second goroutine polls the .tombstone file during the commit: it must never be absent and always hold the old or new set), renamefail (the .tombstone.tmp is moved away in the FileFinishing callback so the rename fails: the set on disk, in an image taken right there and after *.tmp cleanup, must be exactly the old set), limit (key length and block count around 65535). Non-trivial: file with >= 2 accepted calls, idx with >= 1 delete, tomb with >= 2 members, every crash and limit case. Distinct: distinct Gallina terms."
 	var err error
 	base := ""
 	if st, e := os.Stat("/dev/shm"); e == nil && st.IsDir() { // tmpfs: fsync and SyncDir are cheap
@@ -1432,6 +1512,30 @@ func main() {
 				continue
 			}
 			c := jcase{Kind: "crash", Old: [][]jtrec{{{"m", 10, 12}}}, New: []jtrec{{"a", 30, 35}, {"m", 30, 35}}, Step: s[0], Variant: s[1], Cut: cut}
+			run(w, &c)
+		}
+	}
+	for _, del := range [][]string{{"b", "c", "d"}, {"0", "1", "a", "b", "c", "d", "e", "f", "g", "h", "i", "k", "l", "m", "z", "zz"}} {
+		// stored keys after two or more absent keys in a full-key delete (merge walk of indirectIndex.Delete)
+		for _, useRange := range []bool{false, true} {
+			var keys []fkey
+			for _, k := range []string{"a", "d", "f", "k", "z"} {
+				keys = append(keys, fkey{Key: k, Typ: 1, Blocks: [][]int64{{1, 2}, {5}}})
+			}
+			c := jcase{Kind: "idx", Keys: keys}
+			op := jop{Op: "Delete", Keys: del}
+			if useRange {
+				op = jop{Op: "DeleteRange", Keys: del, Lo: math.MinInt64, Hi: math.MaxInt64}
+			}
+			probe := []jop{{Op: "KeyCount"}}
+			for i, k := range []string{"a", "d", "f", "k", "z"} {
+				probe = append(probe, jop{Op: "Contains", Key: k}, jop{Op: "ReadAll", Key: k}, jop{Op: "KeyAt", I: int64(i)})
+			}
+			c.Ops = append(c.Ops, op)
+			c.Ops = append(c.Ops, probe...)
+			c.Ops = append(c.Ops, jop{Op: "Reopen"})
+			c.Ops = append(c.Ops, probe...)
+			c.Ops = append(c.Ops, jop{Op: "TombFile"})
 			run(w, &c)
 		}
 	}
